@@ -17,6 +17,7 @@
 /// let random = drg.bytes::<25>();
 /// ```
 use crate::chacha20::ChaCha;
+use crate::cryptoutil::zero;
 
 /// A simple DRG (Deterministic Random Generator) based on ChaCha Stream cipher
 ///
@@ -50,11 +51,15 @@ impl<const ROUNDS: usize> Drg<ROUNDS> {
 
     /// fill N bytes of the mutable byte array with random data
     pub fn fill_bytes<const N: usize>(&mut self, out: &mut [u8; N]) {
+        // the keystream is xored in, so start from zero to not depend on the previous content
+        zero(out);
         self.0.process_mut(out)
     }
 
     /// fill bytes of the mutable byte slice with random data
     pub fn fill_slice(&mut self, out: &mut [u8]) {
+        // the keystream is xored in, so start from zero to not depend on the previous content
+        zero(out);
         self.0.process_mut(out)
     }
 
